@@ -109,6 +109,9 @@ func (m *Manager[T]) Run() error {
 
 	stopping := false
 
+	// a closed channel is always ready, so only wait for stop once
+	chStop := m.stop
+
 	scan := func() {
 		if stopping {
 			return
@@ -123,7 +126,8 @@ func (m *Manager[T]) Run() error {
 done:
 	for {
 		select {
-		case <-m.stop:
+		case <-chStop:
+			chStop = nil
 			stopping = true
 			_ = m.upSub.Unsubscribe()
 			if len(m.clientStates) > 0 {
